@@ -282,6 +282,9 @@ let pr_line (o : out) (w : world) (l : netobs list) =
   Printf.sprintf "out=%s sj=%s pj=%s arts=%s junk=%d net=%s" (pr_out o) (pr_sj d.sj) (pr_pj d.pj)
     (pr_arts d) (if d.junk then 1 else 0) (Stdlib.String.concat ";" (List.map pr_net l))
 
+let sched_ops : (int, op list) Hashtbl.t = Hashtbl.create 4
+let rec nat_of_int i = if i <= 0 then O else S (nat_of_int (i - 1))
+
 (* ---------- main loop: one file may contain many histories ---------- *)
 let () =
   let w = ref world0 in
@@ -303,6 +306,32 @@ let () =
        | ["sig"; k; m; s] -> Hashtbl.replace sig_tbl (str_tok k, str_tok m, str_tok s) ()
        | ["base"; b] -> base_blob := blob_tok b
        | ["num"; n] -> ignore (num_tok n)
+       | t :: "op" :: rest when Stdlib.String.length t = 2 && t.[0] = 't' ->
+           let i = Char.code t.[1] - 48 in
+           let o = parse_op rest in
+           let cur = try Hashtbl.find sched_ops i with Not_found -> [] in
+           Hashtbl.replace sched_ops i (cur @ [o])
+       | ["order"; ord] ->
+           let order = List.map (fun x -> nat_of_int (int_of_string x))
+               (List.filter (fun x -> x <> "") (split ',' ord)) in
+           let nthreads = 1 + Hashtbl.fold (fun k _ m -> max k m) sched_ops (-1) in
+           let ts = List.init nthreads (fun i -> mk_thread (try Hashtbl.find sched_ops i with Not_found -> [])) in
+           Hashtbl.reset sched_ops;
+           (match !w.w_cfg with
+            | None -> print_endline "out=NOCFG"
+            | Some c ->
+                let ((ts', d'), l) = sched sha sigok zdec (bytes_of_ostring !base_blob) c ts !w.w_disk None order [] in
+                let w' = { w_disk = d'; w_cfg = Some c } in
+                w := w';
+                incr idx;
+                Hashtbl.replace snaps_pj !idx w'.w_disk.pj;
+                Hashtbl.replace snaps_sj !idx w'.w_disk.sj;
+                let outs = Stdlib.String.concat "|" (List.map (fun t ->
+                    Stdlib.String.concat "," (List.map pr_out t.t_outs)) ts') in
+                let net = List.sort compare (List.map pr_net l) in
+                let d = w'.w_disk in
+                Printf.printf "out=%s sj=%s pj=%s arts=%s junk=%d net=%s\n" outs (pr_sj d.sj) (pr_pj d.pj)
+                  (pr_arts d) (if d.junk then 1 else 0) (Stdlib.String.concat ";" net))
        | "op" :: rest ->
            let o = parse_op rest in
            let ((w', x), l) = step sha sigok zdec (bytes_of_ostring !base_blob) !w o in
